@@ -197,6 +197,7 @@ func runBuffer(t *testing.T, fx *fixtures, c verifCase, w *bufio.Writer) {
 	defer func() { os.Setenv("TMPDIR", old); os.RemoveAll(tmp) }()
 
 	for _, line := range c.lines {
+		verifTick()
 		if line == "" || strings.HasPrefix(line, "#") {
 			fmt.Fprintln(w, line)
 			continue
